@@ -53,9 +53,9 @@ MachineChecks(e, fam) ==
 IsEv(name) == l <= NEv /\ Tr[l].e = name
 Step(v) == /\ l' = l + 1
            /\ viol' = Cap(viol \o v)
-           /\ Publish(viol', l')
+           /\ PubResult(viol', l')
 
-TInit == l = 1 /\ gst = << >> /\ viol = << >> /\ Publish(<< >>, 1)
+TInit == l = 1 /\ gst = << >> /\ viol = << >> /\ PubResult(<< >>, 1)
 
 GcmSecrets(e, key) ==
   KeySecrets(key) \cup {HashKey(key)} \cup (IF "kd" \in DOMAIN e THEN Chunks16(e.kd) ELSE {})
